@@ -244,9 +244,17 @@ fn remove_indent<C: Content>(indent: usize, src: &[C::Underlying]) -> Vec<C::Und
   let new_line = get_new_line::<C>();
   let lines: Vec<_> = src
     .split(|b| *b == new_line)
-    .map(|line| match line.strip_prefix(&*indentation) {
-      Some(stripped) => stripped,
-      None => line,
+    .enumerate()
+    .map(|(i, line)| {
+      // the first line starts at the node, not at the line start: it carries no
+      // indentation to remove (`indent_lines_impl` never indents it either)
+      if i == 0 {
+        return line;
+      }
+      match line.strip_prefix(&*indentation) {
+        Some(stripped) => stripped,
+        None => line,
+      }
     })
     .collect();
   lines.join(&new_line).to_vec()
